@@ -146,8 +146,15 @@ func buildConc(c *Ctx) *concInfo {
 	mainPkg := c.P.SSAPkg("cmd/hledger-lsp")
 	seenH := map[*ssa.Function]bool{}
 	for _, f := range ci.funcs {
-		if f.Pkg != mainPkg || f.Signature.Recv() == nil {
+		top := f
+		for top.Parent() != nil {
+			top = top.Parent()
+		}
+		if top.Pkg != mainPkg {
 			continue
+		}
+		if f.Parent() == nil && f.Name() == "main" {
+			continue // calls made directly by main (NewServer, SetClient) happen before the connection starts
 		}
 		for _, b := range f.Blocks {
 			for _, ins := range b.Instrs {
